@@ -564,12 +564,14 @@ func (u *Rib) Serialize() ([]byte, error) {
 	buf := make([]byte, 4)
 	binary.BigEndian.PutUint32(buf, u.SequenceNumber)
 	switch u.Family {
-	case bgp.RF_FS_IPv4_UC, bgp.RF_IPv4_MC, bgp.RF_IPv6_UC, bgp.RF_IPv6_MC:
+	case bgp.RF_IPv4_UC, bgp.RF_IPv4_MC, bgp.RF_IPv6_UC, bgp.RF_IPv6_MC:
+		// the family is given by the record's own subtype
+	default:
+		// RIB_GENERIC: AFI and SAFI precede the NLRI
 		var bbuf [2]byte
 		binary.BigEndian.PutUint16(bbuf[:], u.Family.Afi())
 		buf = append(buf, bbuf[:]...)
 		buf = append(buf, u.Family.Safi())
-	default:
 	}
 	bbuf, err := u.Prefix.Serialize()
 	if err != nil {
